@@ -246,6 +246,16 @@ func runWatchLoop(
 			reconcile()
 		case <-debounce:
 			debounce = nil
+			// The callback reads the file itself. If the content moved on after
+			// the fingerprint that armed this debounce was taken and that
+			// notification was lost, the new content would be evaluated under the
+			// stale fingerprint and reloaded a second time by the next
+			// reconciliation. Fingerprint again and debounce the newer content.
+			if current := fingerprint(configPath); current != observed {
+				observed = current
+				schedule()
+				continue
+			}
 			runCallback(observed)
 		case event, ok := <-events:
 			if !ok {
